@@ -856,6 +856,7 @@ class Lexer:
                         source=self.source,
                     )
                 )
+                self.start = self.pos
                 continue
 
             if kind == "RAW":
@@ -892,6 +893,7 @@ class Lexer:
                         source=self.source,
                     )
                 )
+                self.start = self.pos
                 continue
 
             if kind == "COMMENT_TAG":
@@ -1123,6 +1125,7 @@ class Lexer:
                         )
                         self.wc.clear()
                         self.tag_name = ""
+                        self.start = self.pos
                         break
                 elif tag_name == "raw":
                     raw_depth += 1
